@@ -268,12 +268,25 @@ static wres w_arr(int v)
 		r.changed_mask = 0;
 		return r;
 	}
+	/* variants 4..: the LAST slot of an array whose length equals its capacity (every parsed array is like that):
+	 * replacing or shifting there still makes the list grow first */
+	json_object *parsed = NULL;
+	json_object_object_get_ex(pre_doc, "a", &parsed);
+	size_t len = json_object_array_length(pre_arr), plen = json_object_array_length(parsed);
+	json_object *tgt = v >= 6 ? parsed : pre_arr;
+	if (v >= 6)
+		r.changed_mask = 8;
 	int rc = v == 0 ? json_object_array_add(pre_arr, val) : v == 1 ? json_object_array_put_idx(pre_arr, 9, val)
-	                                                     : v == 2 ? json_object_array_insert_idx(pre_arr, 1, val) : json_object_array_put_idx(pre_arr, 0, val);
+	       : v == 2 ? json_object_array_insert_idx(pre_arr, 1, val) : v == 3 ? json_object_array_put_idx(pre_arr, 0, val)
+	       : v == 4 ? json_object_array_put_idx(pre_arr, len ? len - 1 : 0, val)
+	       : v == 5 ? json_object_array_insert_idx(pre_arr, len ? len - 1 : 0, val)
+	       : v == 6 ? json_object_array_put_idx(parsed, plen ? plen - 1 : 0, val)
+	       : v == 7 ? json_object_array_add(parsed, val)
+	                : json_object_array_insert_idx(parsed, 0, val);
 	if (rc == 0)
 	{
 		r.status = 0;
-		r.result = ser(pre_arr);
+		r.result = ser(tgt);
 	}
 	else
 	{
@@ -427,7 +440,7 @@ static struct
 	int variants;
 	int uses_pre; /* operates on the caller-owned objects: worth repeating after a history */
 } W[] = {{"parse_ex", w_parse, 12, 0},   {"tokener_parse", w_parse_simple, 1, 0}, {"construct", w_construct, 10, 0}, {"object_add", w_obj_add, 3, 1},
-         {"array_grow", w_arr, 4, 1},    {"set_string", w_set_string, 6, 1},      {"deep_copy", w_deep_copy, 1, 1},  {"serialize", w_serialize, 13, 1},
+         {"array_grow", w_arr, 9, 1},    {"set_string", w_set_string, 6, 1},      {"deep_copy", w_deep_copy, 1, 1},  {"serialize", w_serialize, 13, 1},
          {"pointer_set", w_pointer_set, 3, 1}, {"pointer_get", w_pointer_get, 2, 1}, {"patch", w_patch, 7, 1}};
 #define NW (int)(sizeof W / sizeof *W)
 
